@@ -730,9 +730,9 @@ def c10(tier):
     rep = Report("C10", "model_checking", tier)
     bins = build_harness(("release", "debug"))
     hv = bins["release"]
-    per = {"E": 6000, "S": 800, "T": 400, "rnd": 600, "N": 150, "R": 200} if tier == "quick" else \
-          {"E": 60000, "S": 10000, "T": 4000, "rnd": 8000, "N": 3000, "R": 400, "M": 4000}
-    cases = halting_cases(rep, "C10", hv, tier, ["E", "S", "T", "rnd", "N", "R", "M"], per,
+    per = {"E": 6000, "S": 800, "T": 400, "rnd": 600, "N": 150, "R": 200, "W": 500} if tier == "quick" else \
+          {"E": 60000, "S": 10000, "T": 4000, "rnd": 8000, "N": 3000, "R": 400, "M": 4000, "W": 8000}
+    cases = halting_cases(rep, "C10", hv, tier, ["E", "S", "T", "rnd", "N", "R", "M", "W"], per,
                           want=900 if tier == "quick" else 20000)
 
     def runs_for(c):
@@ -767,10 +767,10 @@ def c10(tier):
 # ------------------------------------------------------------------ C06 (executable half)
 def c06_runs(tier, rep, bins):
     hv = bins["release"]
-    per = {"T": 900, "S": 300, "N": 100, "rnd": 300, "M": 200} if tier == "quick" else \
-          {"T": 20000, "S": 8000, "N": 3000, "rnd": 6000, "E": 60000, "M": 4000}
+    per = {"T": 900, "S": 300, "N": 100, "rnd": 300, "M": 200, "W": 600} if tier == "quick" else \
+          {"T": 20000, "S": 8000, "N": 3000, "rnd": 6000, "E": 60000, "M": 4000, "W": 12000}
     sd = seed()
-    pops, per = dev_pops(["T", "S", "N", "rnd", "E", "M"], per)
+    pops, per = dev_pops(["T", "S", "N", "rnd", "E", "M", "W"], per)
     cases = override_cases() or population(hv, tier, sd, pops, per)
 
     def runs_release(c):
